@@ -67,6 +67,8 @@ class Spec:
     elem_terms_methods: frozenset = frozenset()  # elem.m() -> (DL, FL)
     root_data_attrs: frozenset = frozenset()  # root.attr -> DL
     root_data_methods: frozenset = frozenset()  # root.m() -> DL
+    root_expr_texts: frozenset = frozenset()  # normalised expressions that denote the root itself (e.g. kwargs.get("stim_circuit"))
+    root_aug_mutates: bool = False  # `root += x` updates the root in place (mutable value types)
 
 
 TAPE_SPEC = Spec(
@@ -350,6 +352,8 @@ class _Run:
                 cur = env.get(tgt.id, frozenset())
                 if isinstance(st.op, ast.Add) and (L in cur or I in cur):
                     self.sink(st, "aug-assign", f"`{tgt.id} += …` extends in place a container owned by the input {self.spec.name}")
+                if T in cur and self.spec.root_aug_mutates:
+                    self.sink(st, "root-aug", f"`{norm(st)[:60]}` updates the {self.spec.name} in place")
                 if D in cur:
                     self.sink(st, "aug-datum", f"`{norm(st)[:60]}` is an in-place update of `{tgt.id}`, which may be a parameter value of an operator "
                                                f"owned by the input {self.spec.name} (for an array-valued parameter the input's own array is changed)")
@@ -593,6 +597,8 @@ class _Run:
             return env.get(e.id, frozenset())
         if isinstance(e, ast.Constant):
             return frozenset()
+        if sp.root_expr_texts and isinstance(e, (ast.Call, ast.Subscript)) and norm(e) in sp.root_expr_texts:
+            return frozenset({T})
         if isinstance(e, ast.Attribute):
             bt = self.eval(e.value, env)
             out = set()
